@@ -200,6 +200,9 @@ theorem writeInternal_screen (c : Ctl) (hwf : c.WF) (a : BitVec 16) (v : BitVec 
       · have hb : c.screen.active = !lb := by cases lb <;> cases h : c.screen.active <;> simp_all
         rw [hb, u2]
 
+theorem writeInternal_port (c : Ctl) (a : BitVec 16) (v : BitVec 8) : (c.writeInternal a v).port7ffd = c.port7ffd := by
+  unfold Ctl.writeInternal; simp only; split <;> rfl
+
 theorem switchBank_all (s : Screen) (bank : Nat) :
     (s.switchBank bank).last = s.last ∧ (s.switchBank bank).back = s.back ∧ (s.switchBank bank).front = s.front ∧
     (s.switchBank bank).flash = s.flash ∧ (s.switchBank bank).bank0 = s.bank0 ∧ (s.switchBank bank).bank1 = s.bank1 := by
